@@ -271,6 +271,9 @@ def find_in_workspace(
     def add_children(mod_obj, query: str):
         tmp_list = []
         for child_obj in mod_obj.get_children(filter_public):
+            # Unnamed interfaces and enums carry generated names (#GEN_INT1)
+            if child_obj.name.startswith("#"):
+                continue
             if child_obj.name.lower().find(query) >= 0:
                 tmp_list.append(child_obj)
         return tmp_list
